@@ -13,7 +13,7 @@ RULE = ("conn_run with one or two requests of every role; stream contents 0..400
         "reads continued past end-of-stream; transport reads of 1..n bytes or Pending at any call, writes accepting 1..n bytes or Pending (so "
         "that reply flushing is interrupted). Oracle: per stream the delivered bytes are a prefix of that stream's content, end-of-file persists, "
         "a zero-length read returns 0, after set_stream only bytes of the new stream appear, writeable only at creation for roles with <= 1 input "
-        "stream or once the final stream is active. Non-trivial: scripts with >= 2 kinds of read operations or a stream switch; distinct = distinct case lines.")
+        "stream or once the final stream is active. Class huge-buffer: buffer_size 64/128 KiB, maximum-size records, single transport reads leaving 2^16 and more unparsed bytes mid-payload; a read never fails on these fault-free, abort-free cases. Non-trivial: scripts with >= 2 kinds of read operations or a stream switch; distinct = distinct case lines.")
 ASSUMPTIONS = C07.ASSUMPTIONS
 
 
@@ -220,6 +220,9 @@ def oracle(line, impl_line):
                 elif ev[1] == 1 and ev[2] == 0 and op[1] > 0 and active:
                     eof[active] = True
             elif ev[0] == 1:
+                if ev[1] == 0:
+                    return ("a read failed (error kind %d) although the request is well-formed and complete, nothing was aborted and the "
+                            "transport never reported an error" % ev[2])
                 if ev[1] == 1:
                     n = ev[2]
                     if op[1] == 0 and n != 0:
